@@ -27,6 +27,7 @@ CONSTANTS
   CutRecs,     \* ... of databases with at most this many records
   PreKinds,    \* subset of {"none", "base"}: is another database already loaded?
   Layouts,     \* subset of {"gaps", "canon"}: index numbers as generated (8, 11, 14) or already canonical
+  LongStrs,    \* strings (length classes 11..15) used with pre = "none", layout = "gaps" only
   MultiPre, MultiLayouts, MultiStrs   \* databases of more than one record only for these (pre, layout, A);
                                       \* prefixes only for these layouts
 
@@ -55,6 +56,7 @@ NoHdr == [kind |-> "ok", major |-> 0, minor |-> 0, defid |-> 0, first |-> 0, nex
 
 Init ==
   /\ par \in [a : Strs, pre : PreKinds, layout : Layouts]
+  /\ par.a \in LongStrs => par.pre = "none" /\ par.layout = "gaps"
   /\ db = EmptyDb
   /\ hdr = NoHdr /\ cut = -1 /\ stream = <<>>
   /\ pc = "gen" /\ sec = 0 /\ left = 0 /\ st = StartPos
